@@ -72,9 +72,6 @@ func (s *scriptedServers) handler(self, other func() string, acceptor *spnego.SP
 		s.pos++
 		rec := c18Req{Sym: sym, Method: r.Method}
 		rec.BodyOK = len(body) == s.bodyLen && sha256.Sum256(body) == s.bodySum
-		if r.Method == "HEAD" || r.Method == "GET" {
-			rec.BodyOK = len(body) == s.bodyLen
-		}
 		if h := r.Header.Get("Authorization"); strings.HasPrefix(h, "Negotiate ") {
 			rec.Auth = true
 			if tb, err := base64.StdEncoding.DecodeString(strings.TrimPrefix(h, "Negotiate ")); err == nil {
@@ -197,6 +194,9 @@ func cmdC18(args []string) error {
 				if thorough && si%97 == 0 {
 					blen = 1 << 20
 				}
+			} else {
+				// the property crosses the methods with the body sizes: GET and HEAD requests may carry a body too
+				blen = []int{0, 0, 1, 4096, 0, 70000}[(si/4)%6]
 			}
 			spnMode := []string{"explicit", "url"}[(si/2)%2]
 			if err := runC18(tw, cl, kt, realm, sc, method, blen, spnMode, et, r); err != nil {
@@ -238,7 +238,7 @@ func runC18(tw *traceWriter, cl *client.Client, kt *keytab.Keytab, realm string,
 	s.b.Config.Handler = s.handler(func() string { return s.b.URL }, func() string { return s.a.URL }, accB)
 	hc := spnego.NewClient(cl, &http.Client{Timeout: 20 * time.Second}, spn)
 	var rd io.Reader
-	if method == "POST" {
+	if method == "POST" || blen > 0 {
 		rd = bytes.NewReader(body)
 	}
 	req, err := http.NewRequest(method, s.a.URL+"/start", rd)
